@@ -1776,6 +1776,8 @@ func (n *node) unregisterProcess(p *process, reason error) {
 	}
 	lib.VerifPoint("proc.unreg.deleted", p.pid)
 	n.RouteTerminatePID(p.pid, reason)
+	// drop the links and monitors this process created (it is their requester)
+	n.targetManager.CleanupConsumer(p.pid)
 
 	if p.application != system.Name {
 		// do not count system app processes
